@@ -603,6 +603,10 @@ def _power(w, a, bexpr, d):
     b = d(bexpr)
     if isinstance(b, N.Cx):
         raise Unsupported("complex exponent")
+    if N.is_zero_const(a):
+        # the base is the constant 0 (not in the domain a > 0 of the pow symbol): 0**b = 1 for b = 0, 0 for b > 0, undefined for b < 0
+        w.require(N.cmp(">=", b, 0))
+        return N.ite(N.cmp("==", b, 0), 1, 0)
     t = w.funcs.apply("pow", a, b)
     # rational constant exponent p/q: t > 0 and t^q = a^p (a > 0 is a side condition of pow)
     if isinstance(bexpr, C.ScalarValue) and w.symbolic:
